@@ -24,7 +24,7 @@ type hopForm struct {
 	Bound   string // description of the bound operand
 	Pos     string
 	XDesc   string
-	ExtraLT int64 // value form: additional `v < ExtraLT` requirement (xpair1: 255), 0 if none
+	ExtraLT int64           // value form: additional `v < ExtraLT` requirement (xpair1: 255), 0 if none
 	Drop    *ssa.BasicBlock // the block that drops the message when the guard fires
 }
 
